@@ -71,3 +71,43 @@ Lemma split_two sep a b :
   (forall x, In x a -> Byte.eqb x sep = false) -> (forall x, In x b -> Byte.eqb x sep = false) ->
   split sep (a ++ sep :: b) = [a; b].
 Proof. intros Ha Hb. rewrite split_app_sep, (split_no_sep sep a Ha), (split_no_sep sep b Hb). reflexivity. Qed.
+
+(* ---- N-indexed list functions are the nat-indexed ones ---- *)
+Lemma lenN_of_nat (l : bytes) : lenN l = N.of_nat (List.length l).
+Proof. induction l as [|x l IH]; [reflexivity|]. cbn [lenN List.length]. rewrite IH. lia. Qed.
+
+Lemma takeN_firstn {A} (n : N) (l : list A) : takeN n l = firstn (N.to_nat n) l.
+Proof.
+  revert n. induction l as [|x l IH]; intros n; [destruct (N.to_nat n); reflexivity|].
+  cbn [takeN]. destruct (N.eqb n 0) eqn:E.
+  - apply N.eqb_eq in E. subst. reflexivity.
+  - apply N.eqb_neq in E. rewrite IH. replace (N.to_nat n) with (S (N.to_nat (N.pred n))) by lia. reflexivity.
+Qed.
+
+Lemma dropN_skipn {A} (n : N) (l : list A) : dropN n l = skipn (N.to_nat n) l.
+Proof.
+  revert n. induction l as [|x l IH]; intros n; [destruct (N.to_nat n); reflexivity|].
+  cbn [dropN]. destruct (N.eqb n 0) eqn:E.
+  - apply N.eqb_eq in E. subst. reflexivity.
+  - apply N.eqb_neq in E. rewrite IH. replace (N.to_nat n) with (S (N.to_nat (N.pred n))) by lia. reflexivity.
+Qed.
+
+Lemma lenN_app (a b : bytes) : lenN (a ++ b) = (lenN a + lenN b)%N.
+Proof. rewrite !lenN_of_nat, app_length. lia. Qed.
+
+Lemma takeN_all (l : bytes) : takeN (lenN l) l = l.
+Proof. rewrite takeN_firstn, lenN_of_nat, Nat2N.id. apply firstn_all. Qed.
+
+Lemma takeN_app_exact (a b : bytes) : takeN (lenN a) (a ++ b) = a.
+Proof.
+  rewrite takeN_firstn, lenN_of_nat, Nat2N.id. rewrite firstn_app, Nat.sub_diag, firstn_all. cbn. apply app_nil_r.
+Qed.
+
+Lemma take_drop_N {A} n (l : list A) : takeN n l ++ dropN n l = l.
+Proof. rewrite takeN_firstn, dropN_skipn. apply firstn_skipn. Qed.
+
+Lemma lenN_takeN (n : N) (l : bytes) : (n <= lenN l)%N -> lenN (takeN n l) = n.
+Proof. intros H. rewrite lenN_of_nat in *. rewrite takeN_firstn, firstn_length. lia. Qed.
+
+Lemma lenN_dropN (n : N) (l : bytes) : lenN (dropN n l) = (lenN l - n)%N.
+Proof. rewrite !lenN_of_nat, dropN_skipn, skipn_length. lia. Qed.
